@@ -383,6 +383,29 @@ def override_cases(which):
                                 check=lambda c, o, w=want: None if ("h" + w.hex()) in o else "ciphertext created with other additional data than the Enc_structure of the header in force"))
     return out
 
+
+def extreme_pair_cases():
+    """two identifiers in ONE map with at least one at a 64-bit extreme (every ordered pair, repeats included), for
+    every map type: ordering, duplicate detection and classification involve arithmetic on both"""
+    out = []
+    ext = [-2**63, -2**63 + 1, 2**63 - 1, 2**63 - 2, -1, -2, -260, -65536, -65537, -70000, 0, 1, 8, 100]
+    for a in ext:
+        for b in ext:
+            if abs(a) < 2**62 and abs(b) < 2**62: continue
+            out.append(case("dec", "ClaimsSet", enc(M((I(a), I(1)), (I(b), I(2)))), fam="extreme-pair:claims"))
+            out.append(case("dec", "ClaimsSet", enc(M((I(a), I(1)), (T("x"), I(0)), (I(b), I(2)))), fam="extreme-pair:claims"))
+            out.append(case("dec", "Header", enc(M((I(a), I(1)), (I(b), I(2)))), fam="extreme-pair:header"))
+            out.append(case("dec", "Header", enc(M((I(1), I(a)), (I(b), I(2)))), fam="extreme-pair:header-alg"))
+            out.append(case("dec", "CoseKey", enc(M((I(1), I(4)), (I(a), I(1)), (I(b), I(2)))), fam="extreme-pair:key"))
+            out.append(case("dec", "CoseKey", enc(M((I(1), I(4)), (I(3), I(a)), (I(b), I(2)))), fam="extreme-pair:key-alg"))
+            out.append(case("rt", "ClaimsSet", enc(M((I(a), I(1)), (I(b), I(2)))), fam="extreme-pair:claims-rt"))
+            out.append(case("rt", "CoseKey", enc(M((I(1), I(4)), (I(a), I(1)), (I(b), I(2)))), fam="extreme-pair:key-rt"))
+            out.append(case("cmp", "regp:Algorithm", enc(A(I(0), I(a))), enc(A(I(0), I(b))), fam="extreme-pair:cmp"))
+            out.append(case("cmp", "regp:CwtClaimName", enc(A(I(0), I(a))), enc(A(I(0), I(b))), fam="extreme-pair:cmp"))
+            out.append(case("cmp", "label", enc(I(a)), enc(I(b)), fam="extreme-pair:cmp"))
+            out.append(case("cmp", "canonical", enc(I(a)), enc(I(b)), fam="extreme-pair:cmp"))
+    return out
+
 # ================================================================= C16
 def label_palette():
     ints = sorted(set(x for x in LATTICE if -2**63 <= x < 2**63) | {2, 10, 22, 25, 100, 1000, -2, -10, -23, -26, -100, -1000,
@@ -444,6 +467,7 @@ def cases_C16(rng, tier):
         d = gen_desc_key(rng, extra_labels=list(ls))
         for order in ("Lexicographic", "LengthFirstLexicographic"):
             out.append(case("canon", order, enc(d), fam="sort-map-keys", check=chk_sorted(order)))
+    out += [c for c in extreme_pair_cases() if c["line"].startswith("cmp ")]
     return out
 
 # ================================================================= C17
@@ -964,6 +988,9 @@ def single_field_headers():
             # fields holding their type's default-looking value are populated all the same
             d_header(alg=d_reg(1, 0)), d_header(ctype=d_reg(1, 0)), d_header(crit=[d_reg(1, 0)]), d_header(kid=b"\x00"),
             d_header(alg=d_reg(2, "")), d_header(rest=[(I(0), I(0))]), d_header(rest=[(T(""), NULL)]),
+            # the private-use variant of an in-memory algorithm holds whatever integer it was given
+            d_header(alg=d_reg(0, -65537)), d_header(alg=d_reg(0, -2**63)), d_header(alg=d_reg(0, -65536)), d_header(alg=d_reg(0, -100)),
+            d_header(alg=d_reg(0, 1000)), d_header(alg=d_reg(0, 2**63 - 1)), d_header(alg=d_reg(0, 8)),
             d_header(rest=[(I(300), I(1)), (I(-1), I(2)), (T("b"), I(3)), (I(9), I(4)), (T("a"), I(5))])]
 
 def single_field_prots():
@@ -1668,6 +1695,7 @@ def cases_C18(rng, tier):
     out += [c for c in wrapped_body_cases(rng) if c["line"].split()[1] in ("ClaimsSet", "CoseKdfContext")]
     out += depth_sweep_cases(("ClaimsSet",))
     out += typed_field_kind_cases(("ClaimsSet", "CoseKdfContext"))
+    out += [c for c in extreme_pair_cases() if " ClaimsSet " in c["line"]]
     return out
 
 # ================================================================= C11
@@ -1736,7 +1764,9 @@ def cases_C11(rng, tier):
             if ty in TAGGED_TYPES:
                 out.append(case("enctag", ty, enc(d), fam="enctag:" + ty, expect="ok " + (head(6, MSG_TAG[ty]) + want).hex()))
     # omission rules field by field: a protected header holding exactly one populated field
-    singles = single_field_headers()
+    # (a private-use algorithm variant holding a non-private integer is not a well-formed value: it encodes, but C11's
+    # round trip is promised for well-formed values only)
+    singles = [h for h in single_field_headers() if not (h[1][0] != NULL and h[1][0][1][0] == I(0) and h[1][0][1][1][1] >= -65536)]
     for h in singles:
         for ty in MSG_TYPES:
             d = gen_desc_msg(rng, ty)
@@ -1938,6 +1968,7 @@ def cases_C12(rng, tier):
         ca, cb = [(I(-70000 - abs(x[1])) if x[0] == 'i' else x) for x in (a, b)]
         if ca != cb:
             out.append(case("dec", "ClaimsSet", enc(M((ca, I(1)), (cb, I(2)))), fam="alike-labels:claims", expect_re=r"ok .*"))
+    out += [c for c in extreme_pair_cases() if c["line"].startswith("dec ")]
     return out
 
 # ================================================================= C20
@@ -2019,10 +2050,18 @@ def extra_C20(rng, tier):
         d2 = enc(parse_show(m.group(1)))
         lines2.append("canon %s %s" % (c["order"], d2.hex())); idx.append((c, o, m.group(2)))
         lines2.append("rt CoseKey %s" % m.group(2)); idx.append((c, o, m.group(2)))
+        lines2.append("enc CoseKeySet %s" % enc(A(parse_show(m.group(1)))).hex()); idx.append((c, o, m.group(2)))
+        lines2.append("rt CoseKeySet 82a10104%s" % m.group(2)); idx.append((c, o, m.group(2)))
     o2 = runner.run_impl(lines2)
     for (c, o, hexb), l2, r2 in zip(idx, lines2, o2):
         if l2.startswith("canon"):
             if r2 != o: probs.append(({"line": l2, "fam": "canon-twice", "label_zero": c.get("label_zero")}, r2, "canonicalising twice is not a no-op: first %s" % o[:120]))
+        elif l2.startswith("enc CoseKeySet"):
+            if r2 != "ok 81" + hexb:
+                probs.append(({"line": l2, "fam": "canon-in-keyset", "label_zero": c.get("label_zero")}, r2, "canonicalised key is not emitted as it is when it is a member of a key set (expected 81 %s)" % hexb[:80]))
+        elif l2.startswith("rt CoseKeySet"):
+            if r2 != "ok 82a10104%s T T" % hexb:
+                probs.append(({"line": l2, "fam": "canon-in-keyset-rt", "label_zero": c.get("label_zero")}, r2, "key set holding the canonical encoding does not decode and re-encode to the same bytes"))
         else:
             if r2 != "ok %s T T" % hexb:
                 probs.append(({"line": l2, "fam": "canon-rt", "label_zero": c.get("label_zero")}, r2, "canonicalised key does not decode and re-encode to the same bytes"))
@@ -2253,6 +2292,32 @@ def cases_C06(rng, tier):
                             **({"expect": "fail"} if fail else {"check": (lambda cc, o, w=want, ctt=ct: None if o.endswith(" %s %s" % (ctt.hex(), w.hex())) else "decrypt did not receive (ciphertext, additional data given at creation)")})))
     out += field_population_cases(("sign", "mac", "enc"))
     out += override_cases(("sign", "mac", "enc"))
+    # several signers that look alike (same key id in the unprotected header, same or different algorithm, identical
+    # twins included): every signer added is kept, at its position, and verification at index i receives signer i's own
+    # signature and to-be-signed bytes
+    aad, pl = b"external aad", b"the payload"
+    algs = [-7, -35, -36, -8]
+    for n in (2, 3, 4):
+        for same_prot in (False, True):
+            for kid in (b"same-kid", b""):
+                for detached in (False, True):
+                    for tagged in (False, True):
+                        ops = [A(T("protected"), d_header(alg=d_reg(1, -7)))]
+                        pb = enc(pyspec.header_map(d_header(alg=d_reg(1, -7))))
+                        if not detached: ops.append(A(T("payload"), B(pl)))
+                        sps = []
+                        for i in range(n):
+                            sph = d_header(alg=d_reg(1, algs[0 if same_prot else i]))
+                            spb = enc(pyspec.header_map(sph))
+                            sg = d_signature(d_protected(None, sph), d_header(kid=kid), b"")
+                            ki = bytes([0x30 + i, 0x31 + i]); sps.append((spb, ki))
+                            if detached: ops.append(A(T("add_detached_signature" if i % 2 else "try_add_detached_signature"), sg, B(pl), B(aad), A(I(0), B(ki))))
+                            else: ops.append(A(T("add_created_signature" if i % 2 else "try_add_created_signature"), sg, B(aad), A(I(0), B(ki))))
+                        for w in range(n):
+                            want_tbs = pyspec.sig_structure("CoseSignature", pb, sps[w][0], aad, pl)
+                            args = (bytes([w]), pl, aad) if detached else (bytes([w]), aad)
+                            out.append(case("buildrt", "CoseSign", enc(('a', ops)), "01" if tagged else "-", *args, fam="alike-signers" + ("-detached" if detached else ""),
+                                            check=(lambda cc, o, wt=want_tbs, kk=sps[w][1]: None if o.endswith(" %s %s" % ((kk + wt).hex(), wt.hex())) else "verifier did not receive (signature, to-be-signed bytes given to that signer)")))
     return out
 
 # ================================================================= C02
@@ -2562,6 +2627,7 @@ def cases_C01(rng, tier):
                 out.append(case("dec", ty, w, fam="wrapped-toplevel", expect_re=r"err:\w+", impl_only=(n > 3000)))
             if n <= 3000:
                 out.append(case("dec", "CoseKeySet", b"\x81" + w, fam="wrapped-toplevel", expect_re=r"err:\w+"))
+    out += extreme_pair_cases()
     return out
 # ================================================================= registry
 PROPS = {}
